@@ -24,3 +24,7 @@ def run(ck):
     res = funcs.kernel_typing(ck, "C07.R3", only=("add", "sub", "mul"))
     funcs.single_quantization(ck, "C08.R2", res)
     carriers.machine_carrier(ck, "C19.R5")
+    fresh.constructor_state(ck, "C20.R2")            # results and operands are built by the constructor: own status record, own final configuration
+    sizes.init_size_relation(ck, "C06.R1")
+    funcs.route_selection(ck, "C19.R6")
+    ops.operator_siblings(ck, "C08.R4", only=("__add__", "__sub__", "__rsub__", "__mul__"))
